@@ -1343,6 +1343,26 @@ def parameter_reader_rule(prog, res, rule='parameter-read'):
     record_prefix_reader(ck, L)
     ck.r_field('type', 'readInt', 1, cite=L['type']['cite'])
     type_byte_rule(prog, res, rule, f)
+    # the element type decoded from the type byte is what the object keeps: nothing the reader calls afterwards stores another one
+    E_ = FX.get(prog)
+    tw = [e for e in E_.events_of(f, 'this') if tuple(e[2]) == ('_data_type',) and e[3] == 'assign']
+    via_calls = [e for e in tw if f.nodes[e[0]]['k'] in ('CXXMemberCallExpr', 'CallExpr') and f.nodes[e[0]].get('callee', {}).get('inrepo')]
+    direct = [e for e in tw if e not in via_calls]
+    for e in via_calls:
+        cn = f.nodes[e[0]]
+        cf = prog.funcs.get(cn['callee'].get('usr'))
+        if cf is None or cf.body is None or not direct:
+            continue
+        Rc = Renderer(cf)
+        consts = []
+        for n_ in cf.nodes:
+            if n_['k'] == 'BinaryOperator' and n_['op'] == '=' and Rc.render(n_['ch'][0]) == 'this._data_type':
+                v_ = cf.nodes[cf.strip(n_['ch'][1], 'all')].get('cv')
+                if v_ is not None:
+                    consts.append(str(v_))
+        if consts:
+            res.viol(rule, 'parameter.type.kept', f.loc(e[0]), 'after the element type was decoded from the type byte, %s stores the constant type %s: a parameter of another type (BYTE) is re-typed on load and '
+                     'written back with another element width' % (cf.qname.split('::')[-1] + '(...)', '/'.join(sorted(set(consts)))), function=f.sig, expr='parameter.type.kept')
     d = ck.r_field('ndims', 'readUint', 1, cite=L['ndims']['cite'])
     nd = d.get('dest') if d else None
     alt = ck.take(('alt',))
